@@ -18,6 +18,7 @@ open Bluge.Index List
 
 /-! ## the tie to the source (Gen) -/
 
+set_option maxRecDepth 100000 in
 /-- The statements of `ProcessSegmentNow`, `introduceMerge`, `introducePersist`, `introduceSegment`,
 `persistSnapshotMaybeMerge`, `mergeSegmentBases`, `planSegmentsToMerge`, `executeMergeTask` and `segmentSnapshot.Count/
 DocNumbersLive` that touch the deleted bitmaps, the doc-number tables, the running offsets and `old`, extracted from
